@@ -184,6 +184,9 @@ func SetResidue(mode int, seed uint64) {
 	ReaderResidue(pat)
 }
 
+// ZoneCacheLen returns the number of entries of the time-zone cache.
+func ZoneCacheLen() int { return exif2.VerifZoneCacheLen() }
+
 // ZoneCache returns a snapshot of the time-zone cache.
 func ZoneCache() map[string]string { return exif2.VerifZoneCache() }
 
